@@ -81,6 +81,10 @@ def well_formed_cases(rng, quick):
     cases.append((b"20 ;charset=utf-16\r\n" + TEXT.encode("utf-16"), "2x-no-type-only-charset", "2x", "utf-16"))
     cases.append((b"20 ;lang=fr\r\n\xe9t\xe9\n", "2x-no-type-only-lang", "2x", "default"))
     cases.append((b"20 TEXT/Gemini; CHARSET=ISO-8859-1\r\ncaf\xe9\n", "2x-uppercase-type", "2x", "iso-8859-1"))
+    # labels Python knows but cannot decode text with: a relay has no business decoding at all
+    cases.append((b"20 text/gemini; charset=undefined\r\nplain body\n", "2x-odd-python-codec", "2x", "undefined"))
+    cases.append((b"20 text/plain; charset=idna\r\nxn--\n", "2x-odd-python-codec", "2x", "idna"))
+    cases.append((b"20 text/plain; charset=rot13\r\nuryyb\n", "2x-odd-python-codec", "2x", "rot13"))
     return cases
 
 
